@@ -27,7 +27,12 @@ TECHNIQUE = (
     "the default max_retry=0, by the per-request UDSRequestConfig; at transport level every cut after the ack is also run as a SECOND USE of "
     "the same transport object: the caller pauses between write() and read() (so that frames and the end of the stream have all arrived "
     "before the reply is picked up), then keeps reading until the transport reports the end, or writes again - every one of these "
-    "operations must end in bounded virtual time and the successive reads may only return the peer's complete frames, in order, once"
+    "operations must end in bounded virtual time and the successive reads may only return the peer's complete frames, in order, once; "
+    "on real loopback TCP / unix sockets every line transport is also USED AGAIN AFTER THE LOSS and then closed twice: the peer ends the "
+    "connection on accept / with the request unread / inside the reply (close or SO_LINGER reset), the caller goes on with write(), two "
+    "write() calls back to back, read(), request() or UDSClient requests without retries on the dead connection (where the kernel of each "
+    "socket family reports the loss to the writer in its own way) and finally calls close() twice - each operation must end with a timeout / "
+    "connection error / EOF / missing response and both close() calls must return normally"
 )
 LEVEL_TEXT = (
     "Fault enumeration: transport in {tcp-lines, unix-lines, DoIP, HSFZ} x cut at every byte offset (hence every frame boundary and "
@@ -38,7 +43,10 @@ LEVEL_TEXT = (
     "config} at UDS client level, in virtual time; pair level: operation pair {write+read, read+write, read+read, read+close, "
     "read+reconnect, write+close} from two tasks on one transport x every byte offset after the handshake (read+write: cut times "
     "before/between/after ack and reply) x cut kind x caller timeouts {none, 0.3, 2} per operation; plus real "
-    "loopback sockets (close, SO_LINGER reset, stall, restart; read pending while another task closes / reconnects) for a seeded sample. Held = every recorded operation ended in bounded "
+    "loopback sockets (close, SO_LINGER reset, stall, restart; read pending while another task closes / reconnects) for a seeded sample, and "
+    "enumerated on real sockets: line transport {tcp, unix} x end of the connection {on accept, request unread, inside the reply} x {close, reset} x "
+    "use after the loss {write, read+write, UDS request, two UDS requests, write+read+write, request(), two writes back to back, those + UDS request} "
+    "followed by close() twice. Held = every recorded operation ended in bounded "
     "virtual time with a timeout / connection error / explicit EOF or the complete genuine reply, and the client recovered where the "
     "statement promises it."
 )
@@ -46,7 +54,7 @@ LEVEL_NOTE = "Trusted: gateway simulator (vf/gateway.py) and its reset model (re
 RULE = (
     "cases = (transport, level, cut offset, cut kind, caller timeout, restart delay, max_retry, where the retry count is configured; "
     "at pair level: operation pair, both caller timeouts, delay of the closing task; second use: stream variant, pause before read(), "
-    "follow-up kind); offsets enumerated over the whole "
+    "follow-up kind; real sockets after the loss: where and how the peer ended the connection, sequence of uses before close()); offsets enumerated over the whole "
     "peer->client stream of one exchange; non-trivial = the cut falls before the end of the stream, or the case continues to use the transport after the loss; distinct = distinct case tuples"
 )
 ASSUMPTIONS = [
@@ -56,6 +64,7 @@ ASSUMPTIONS = [
     "pair level, virtual time: a local close of the stream feeds EOF to the stream reader one loop iteration later (asyncio's connection_lost); the real-socket sample checks the same combinations against asyncio itself for the line transports",
     "second use: operations started after the loss are judged like pending ones (bounded end from their own start, error class, no fabricated or repeated data); a complete frame that arrived before the loss may be delivered by a later read or be lost to an error, both are accepted; a read without caller timeout is again only generated for EOF / reset",
     "two concurrent read() calls on a line transport are not generated (asyncio's StreamReader forbids two waiting readers)",
+    "real sockets, use after the loss: which of the later operations fails and with which connection error is the kernel's business (unix: EPIPE on the first write; TCP: one write is accepted, the RST fails the next operation) and is not judged; judged is that each ends in bounded time with an allowed result class, returns no data (the peer never sent a complete reply) and that close() returns normally both times",
     "virtual-time reset = the reader raises ConnectionResetError and writes fail; TCP half-close subtleties are only covered by the real-socket sample",
 ]
 EXHAUSTIVE = {"quick": True, "thorough": True}
@@ -111,6 +120,11 @@ def required_reach(tier: str) -> dict[str, int]:
         if t != "doip":
             # (a DoIP connection that saw the end of the stream reports the loss instead of the queued frames: counted, not required)
             r[f"again.read-after-late-pickup.no-timeout:{t}"] = 5
+    for t in ("tcp-lines", "unix-lines"):
+        # real sockets: the caller used the transport again after the loss (the kernel reported the loss to a write) and then closed it
+        r.update({f"real.after-loss:{t}": 30, f"real.close-after-failed-write:{t}": 16, f"real.close-after-failed-use:{t}": 30, f"real.use-after-loss.uds:{t}": 10})
+        for m in AFTER_LOSS_MODES:
+            r[f"real.after-loss.{m}:{t}"] = 10
     r.update({"client.cut-after-pending": 20, "client.second-connection-silent": 10, "client.two-requests.first-failed": 20, "reconnect-api.peer-back-in-time": 40, "reconnect-api.peer-too-late": 20, "cut.mid-header": 10, "cut.mid-payload": 10, "cut.frame-boundary": 6, "close-twice": 100, "real.cases": 10, "real.recovered": 2})
     return r
 
@@ -1060,6 +1074,160 @@ async def real_pair_case(ctx: Any, sc: dict[str, Any], sockdir: str) -> None:
         server.close()  # never awaited: Server.wait_closed() can hang on 3.12.1 with open connections
 
 
+# ---- real sockets: the transport is used again after the loss, then closed ---------------------------------
+AFTER_LOSS_MODES = ("on-accept", "unread-request", "after-request")
+AFTER_LOSS_USES = (("write",), ("read", "write"), ("uds",), ("uds", "uds"), ("write", "read", "write"), ("request",), ("burst",), ("burst", "uds"))  # burst = two write() calls with no pause in between
+
+
+def after_loss_cases(part: int, nparts: int, rng: Any) -> list[dict[str, Any]]:
+    """line transport x where the peer ends the first connection x how (close / SO_LINGER reset) x what the caller still does with the
+    transport object before it closes it; every combination is run by exactly one of the real-socket shards"""
+    out = []
+    i = 0
+    for t in ("tcp-lines", "unix-lines"):
+        for mode in AFTER_LOSS_MODES:
+            for kind in ("eof", "reset"):
+                for uses in AFTER_LOSS_USES:
+                    if i % nparts == part:
+                        out.append({"transport": t, "idx": 100 + i, "after_loss": True, "mode": mode, "kind": kind, "uses": list(uses), "cut_at": rng.choice([0, 1, 12, 24])})
+                    i += 1
+    return out
+
+
+async def real_after_loss_case(ctx: Any, sc: dict[str, Any], sockdir: str) -> None:
+    """tcp-lines / unix-lines on real loopback sockets, SECOND USE of the transport object after the loss and then close() twice (what a
+    scanner's teardown does after its requests failed). The peer ends the first connection
+      on-accept       right after accepting it (before any request),
+      unread-request  after the client wrote its request, without ever reading it,
+      after-request   after reading the request and sending `cut_at` bytes of the reply,
+    by close() or by an SO_LINGER-0 close. The caller then goes on using the object - write(), read(), request() of the transport, or
+    requests of a UDSClient without retries on top of it - and finally closes it twice. What the kernel reports for a write on the dead
+    connection differs per socket family (a unix stream socket fails the first write with EPIPE, TCP accepts one write and fails the
+    next one after the RST, a reset is reported to whoever touches the socket next); the statement does not: every operation ends in
+    bounded time with a timeout / connection error / EOF / missing response, nothing is fabricated, and both close() calls return."""
+    from gallia.services.uds.core import service
+    from gallia.services.uds.core.client import UDSClient, UDSRequestConfig
+
+    t, kind, mode = sc["transport"], sc["kind"], sc["mode"]
+    reply_line = hexlify(REPLY) + b"\n"
+    accepted: list[Any] = []
+    may_cut = asyncio.Event()
+    cut_done = asyncio.Event()
+
+    async def handle(reader: asyncio.StreamReader, writer: asyncio.StreamWriter) -> None:
+        accepted.append(writer)
+        try:
+            if mode == "unread-request":
+                await may_cut.wait()
+            elif mode == "after-request":
+                await reader.readline()
+                writer.write(reply_line[: sc["cut_at"]])
+                await writer.drain()
+            if kind == "reset":
+                writer.get_extra_info("socket").setsockopt(socket.SOL_SOCKET, socket.SO_LINGER, struct.pack("ii", 1, 0))
+        except (ConnectionError, asyncio.CancelledError):
+            pass
+        finally:
+            writer.close()
+            cut_done.set()
+
+    if t == "tcp-lines":
+        server = await asyncio.start_server(handle, "127.0.0.1", 0)
+        target = f"tcp-lines://127.0.0.1:{server.sockets[0].getsockname()[1]}"
+    else:
+        path = os.path.join(sockdir, f"a{os.getpid()}-{sc['idx']}.sock")
+        server = await asyncio.start_unix_server(handle, path)
+        target = f"unix-lines://{path}"
+    loop = asyncio.get_running_loop()
+    BOUND = 8.0  # real seconds; the operations have caller timeouts of 0.5 s and need milliseconds
+    ops: list[dict[str, Any]] = []
+    w = {"scenario": sc, "ops": ops}
+
+    async def op(name: str, coro: Any, after: bool) -> dict[str, Any]:
+        rec: dict[str, Any] = {"op": name, "after_loss": after}
+        ts = loop.time()
+        try:
+            r = await asyncio.wait_for(coro, BOUND)
+            rec["res"] = ("ok", r if isinstance(r, (bytes, int)) else getattr(r, "pdu", None))
+        except BaseException as e:
+            rec["res"] = ("exc", type(e).__name__, isinstance(e, ConnectionError), isinstance(e, TimeoutError), repr(e)[:120], type(e.__cause__).__name__ if e.__cause__ else None,
+                          isinstance(e.__cause__, ConnectionError))
+        rec["dur"] = loop.time() - ts
+        ops.append(rec)
+        return rec
+
+    try:
+        tr = await transport_class(t).connect(target, timeout=2.0)
+        cl = None
+        # the exchange that meets the loss
+        if mode != "on-accept":
+            await op("write", tr.write(REQ, timeout=0.5), False)
+            may_cut.set()
+        await asyncio.wait_for(cut_done.wait(), BOUND)
+        await asyncio.sleep(0.05)  # the peer's FIN / RST has arrived
+        if mode != "on-accept":
+            await op("read", tr.read(timeout=0.5), False)
+        # the caller goes on using the object
+        for u in sc["uses"]:
+            if u == "write":
+                await op("write", tr.write(REQ, timeout=0.5), True)
+            elif u == "burst":
+                r = await op("write", tr.write(REQ, timeout=0.5), True)
+                if r["res"][0] == "ok":
+                    # back to back: the event loop has not looked at the socket since the first write (whose answer from the peer's
+                    # kernel is there already)
+                    await op("write", tr.write(REQ, timeout=0.5), True)
+            elif u == "read":
+                await op("read", tr.read(timeout=0.5), True)
+            elif u == "request":
+                await op("request", tr.request(REQ, timeout=0.5), True)
+            else:
+                if cl is None:
+                    cl = UDSClient(tr, timeout=0.3, max_retry=0)
+                await op("uds", cl.request(service.ReadDataByIdentifierRequest(0xF190), UDSRequestConfig(max_retry=0)), True)
+            await asyncio.sleep(0.02)
+        closee = cl.transport if cl is not None else tr
+        await op("close", closee.close(), True)
+        await op("close2", closee.close(), True)
+    finally:
+        for wr in accepted:
+            wr.close()
+        server.close()  # never awaited: Server.wait_closed() can hang on 3.12.1 with open connections
+    # ---- judgement ----
+    ctx.reach(f"real.after-loss:{t}")
+    ctx.reach(f"real.after-loss.{mode}:{t}")
+    failed_use = failed_write = False
+    for o in ops:
+        name, res = o["op"], o["res"]
+        if o["dur"] >= BOUND - 0.2:
+            ctx.violation(f"real/{t}/after-loss/blocks/{name}/{kind}", "an operation on a transport that lost its peer (second use / close) did not end within the watchdog", w)
+            continue
+        if name in ("close", "close2"):
+            ctx.reach("close-twice")
+            if failed_write:
+                ctx.reach(f"real.close-after-failed-write:{t}")
+            if failed_use:
+                ctx.reach(f"real.close-after-failed-use:{t}")
+            if res[0] != "ok":
+                ctx.violation(f"real/{t}/after-loss/close/{'second' if name == 'close2' else 'first'}/{res[1]}",
+                              "closing a transport that lost its peer and was used again by the caller before the close raises", w)
+            continue
+        if o["after_loss"]:
+            ctx.reach(f"real.use-after-loss.{name}:{t}")
+        if res[0] == "ok":
+            if name == "write" or res[1] == b"":
+                continue
+            # the peer never sent a complete reply (cut_at is smaller than the reply line)
+            ctx.violation(f"real/{t}/after-loss/fabricated-or-truncated-data/{name}/{kind}", "an operation on a transport that lost its peer returned data the peer never sent completely", w)
+            continue
+        if not (res[2] or res[3]):
+            ctx.violation(f"real/{t}/after-loss/{name}/{kind}/{res[1]}", "connection loss surfaces on a later operation as something other than a timeout / connection error / EOF / missing response", w)
+            continue
+        failed_use = True
+        if name == "write" and res[2]:
+            failed_write = True
+
+
 def run_pairs(ctx: Any, params: dict[str, Any]) -> None:
     """two operations from two tasks on one transport x every cut offset after the handshake x cut kind x caller timeouts"""
     t = params["transport"]
@@ -1242,6 +1410,14 @@ def run(ctx: Any, params: dict[str, Any]) -> None:
             except TimeoutError:
                 ctx.violation(f"real/{sc['transport']}/pair/hangs/{sc['kind']}", "the exchange over a real socket did not end within the watchdog", {"scenario": sc})
 
+        for sc in after_loss_cases(params["part"], 4 if ctx.tier == "quick" else 8, rng):
+            # the peer is gone; the caller uses the transport object again and then closes it twice
+            ctx.case(("real-after-loss", repr(sc)))
+            try:
+                await asyncio.wait_for(real_after_loss_case(ctx, sc, sockdir), 90)
+            except TimeoutError:
+                ctx.violation(f"real/{sc['transport']}/after-loss/hangs/{sc['kind']}", "the second use of a transport over a real socket did not end within the watchdog", {"scenario": sc})
+
     asyncio.run(go())
 
 
@@ -1252,6 +1428,8 @@ def replay(ctx: Any, witness: dict[str, Any]) -> None:
     sc = witness["scenario"]
     if "level" in sc:
         one(ctx, sc)
+    elif sc.get("after_loss"):
+        asyncio.run(real_after_loss_case(ctx, sc, str(ctx.mkscratch())))
     elif sc.get("pair"):
         asyncio.run(real_pair_case(ctx, sc, str(ctx.mkscratch())))
     else:
